@@ -49,9 +49,11 @@ namespace rkcommon {
 
      private:
       // declaration before taskImpl: ensure initialization before task finishes
+      // (the task may start running, and assign retValue, as soon as taskImpl
+      // is constructed)
       std::atomic<bool> jobFinished{false};
-      detail::AsyncTaskImpl<std::function<void()>> taskImpl;
       T retValue;
+      detail::AsyncTaskImpl<std::function<void()>> taskImpl;
     };
 
   }  // namespace tasking
